@@ -25,6 +25,7 @@ class Ctx:
         self.prop = prop
         self.tier = tier
         self.facts_dir = facts_dir
+        self.repo = extract.REPO
         self.crates = load_all(facts_dir)
         self.world = World(self.crates)
         self.findings = []
@@ -105,7 +106,9 @@ def run_check(prop, rule_module, argv, level="other", explanation="", assumption
             print(f"VIOLATION property={prop} replay={a.replay}\n  rule={f.rule} key={f.key} site={f.site}\n  {f.detail[:1500]}")
         sys.exit(1 if hit else 0)
     selftest_report = None
-    if a.tier == "thorough":
+    if a.tier == "thorough" and unexpected:
+        ctx.notes.append("self-test skipped: the tree under test already violates the property, mutants on top of it would say nothing")
+    if a.tier == "thorough" and not unexpected:
         import selftest
         try:
             selftest_report = selftest.run(prop, rule_module, floors)
